@@ -28,3 +28,18 @@ package main
 //@ func structFields {C07 | safety: C07}
 //@   requires [nn] t != nil
 //@   ensures [struct C07] (t.Kind == idl.TypeStruct ==> result == t.Fields) && (t.Kind != idl.TypeStruct ==> len(result) == 0)
+
+// ---- the file that is written is what generateTemplate returned, under the derived name
+
+//@ ghost gGenPkg string
+//@ ghost gGenOut bytes
+//@ ghost gGenErr iface
+//@ ghost gGenSrc string
+
+//@ func generateFile {C07 | safety: C07}
+//@   modifies gGenPkg, gGenOut, gGenErr, gGenSrc, gpos, cstart, gone, gtwo, gname, gkw, gElem, gDoc, gName, gType, gMIn, gMOut, gIdlDoc, gIfaceName, gLC, gLCkw
+//@   ghostset at call(generateTemplate)#1 : gGenSrc = arg0
+//@   ghostset at call(generateTemplate)#1 : gGenPkg = res0
+//@   ghostset at call(generateTemplate)#1 : gGenOut = res1
+//@   ghostset at call(generateTemplate)#1 : gGenErr = res2
+//@   assert [written C07] at call(WriteFile)#1 : gGenErr == nil && arg1 == gGenOut
